@@ -416,7 +416,7 @@ func sanitize(c Case, avoid map[string]bool) (Case, []string) {
 		}
 		ops := append([]Op(nil), c.Ops...)
 		ops[idx].Dt = dt
-		c = Case{Init: c.Init, Ops: ops}
+		c = Case{Init: c.Init, Ops: ops, Proc: c.Proc}
 		n = append(n, id)
 	}
 	return c, n
